@@ -10,6 +10,8 @@ use std::fmt::Debug;
 use std::marker::PhantomData;
 
 pub(crate) mod aggregate;
+#[cfg(chalk_verif)]
+pub use aggregate::verif as verif_aggregate;
 mod resolvent;
 
 #[derive(Clone, Debug, HasInterner)]
